@@ -706,7 +706,7 @@ def fam_edges(kind, n):
     return []
 
 
-FAMS = ["path", "cycle", "complete", "star", "circ2", "grid", "cliques", "rand"]
+FAMS = ["path", "cycle", "complete", "star", "circ2", "grid", "cliques", "rand", "hubtwin"]
 WTS = [0.1, 0.2, 0.3]
 
 
@@ -715,7 +715,8 @@ class C17Prop(CommProp):
     quick_n, thorough_n = 150, 4000
     nproc = 3
     want_repro = True
-    rule = ("tie-rich graphs (paths, cycles, complete, stars, circulants, grids, two cliques with a bridge, random) "
+    rule = ("tie-rich graphs (paths, cycles, complete, stars, circulants, grids, two cliques with a bridge, a hub joined by "
+            "weights 0.1/0.2/0.3 to two identical heavy cliques, random) "
             "on 3-12 nodes, undirected and directed (40%, random orientation plus reverse edges), unweighted / "
             "weight 1 / weights cycling over 0.1,0.2,0.3 by edge index, by endpoint sum or at random; each seeded "
             "louvain_partitions and louvain_communities call (seeds 0-20, resolution {1/2,1,3/2,None}, threshold "
@@ -747,6 +748,21 @@ class C17Prop(CommProp):
             directed = 1 if r.below(5) < 2 else 0
             wmode = r.pick(["unw", "one", "idx", "sum", "rnd", "rnd"])
             edges = []
+            if kind == "hubtwin":
+                # a hub joined by inexact weights (0.1, 0.2, 0.3 in some order) to each of two identical heavy
+                # cliques: once the cliques have formed the hub's gains towards them are mathematically equal,
+                # so any order-dependent float accumulation can flip the decision from call to call
+                k = 3 + r.below(2)
+                heavy = r.pick([1, 2, 4])
+                directed, wmode, es = 0, "rnd", []
+                sp = r.shuffle(WTS)
+                for base in (1, 1 + k):
+                    for a in range(k):
+                        for b in range(a + 1, k):
+                            edges.append((base + a, base + b, heavy, None))
+                    for j in range(3):
+                        edges.append((0, base + j, sp[j], None))
+                edges = r.shuffle(edges) if r.below(2) else edges
             for k, (u, v) in enumerate(es):
                 if directed and r.below(2):
                     u, v = v, u
